@@ -253,13 +253,27 @@ impl Journal {
     /// initializes the schema for the Journal
     pub fn schema_up(&mut self) -> Result<i64, PersistenceError> {
         while self.version < CURRENT_VERSION {
-            match self.version + 1 {
-                0 => self.version = self.init_up()?,
-                1 => self.version = self.records_up()?,
+            // A schema step and the version row that records it are one transaction: a process
+            // that stops in between must find either both or neither when it reopens the journal.
+            self.conn().execute_batch("BEGIN")?;
+
+            let step = match self.version + 1 {
+                0 => self.init_up(),
+                1 => self.records_up(),
                 _ => panic!("incorrect version somewhere"), // valid panic, non-recoverable state
             }
+            .and_then(|version| self.update_schema_version(version).map(|()| version));
 
-            self.update_schema_version(self.version)?;
+            match step {
+                Ok(version) => {
+                    self.conn().execute_batch("COMMIT")?;
+                    self.version = version;
+                }
+                Err(error) => {
+                    let _ = self.conn().execute_batch("ROLLBACK");
+                    return Err(error);
+                }
+            }
         }
 
         Ok(self.version)
@@ -293,7 +307,10 @@ impl Journal {
     ///  zone. Each record is expected to be in the format of an update record
     fn records_up(&self) -> Result<i64, PersistenceError> {
         // we'll be using rowid for our primary key, basically: `rowid INTEGER PRIMARY KEY ASC`
-        let count = self.conn.lock().expect("conn poisoned").execute(
+        // (the count `execute` returns for a CREATE TABLE is that of the connection's last INSERT or
+        // UPDATE, not a property of this statement: it is 1 right after init_up() and 0 when a journal
+        // at version 0 is reopened)
+        self.conn.lock().expect("conn poisoned").execute(
             "CREATE TABLE records (
                                           \
                                             client_id      INTEGER NOT NULL,
@@ -307,8 +324,6 @@ impl Journal {
                                             )",
             [],
         )?;
-        //
-        assert_eq!(count, 1);
 
         Ok(1)
     }
